@@ -1,7 +1,7 @@
 SPECIFICATION Spec
 CONSTANTS
   FSKinds = {"std", "mem", "rec"}
-  PathIds = {1, 3, 4}
+  PathIds = {1, 3}
   Vals = {2, 5}
   MaxRecs = 2
   MemPaths = {1, 2, 3}
